@@ -348,6 +348,11 @@ class Evaluator(Interp):
 
     def binop(self, op, a, b, fr):
         num = (TInt, TBool)
+        if isinstance(op, ast.BitOr) and isinstance(a, (VClass, PyTuple)) and isinstance(b, (VClass, PyTuple)):
+            # X | Y on classes (PEP 604 union used as the second argument of isinstance): the tuple of classes
+            xs = list(a.items) if isinstance(a, PyTuple) else [a]
+            ys = list(b.items) if isinstance(b, PyTuple) else [b]
+            return PyTuple(xs + ys)
         if isinstance(a, SV) and isinstance(b, SV) and a.ty in num and b.ty in num:
             x, y = self.coerce(a, TInt).term, self.coerce(b, TInt).term
             if isinstance(op, ast.Add):
@@ -1377,6 +1382,14 @@ class Evaluator(Interp):
                 if isinstance(inner.ty, TObj) and not inner.ty.exact and self.w.is_subclass(c.ci.qname, inner.ty.cls) and not c.ci.is_protocol:
                     exact = len([q for q in self.w.subclasses(c.ci.qname)]) == 1
                     fr.env[nm] = SV(TObj(c.ci.qname, exact=exact), inner.term)
+                elif isinstance(inner.ty, TObj) and not inner.ty.exact and self.w.is_subclass(c.ci.qname, inner.ty.cls) and c.ci.is_protocol:
+                    # a runtime-checkable protocol: isinstance is structural.  Narrow only when the
+                    # concrete classes that satisfy it structurally are exactly its nominal subclasses
+                    cands = [q for q in self.w.subclasses(inner.ty.cls) if not self.w.get_class(q).is_protocol]
+                    nominal = {q for q in cands if self.w.is_subclass(q, c.ci.qname)}
+                    struct = {q for q in cands if q in nominal or self.cdb.builtins.structural_protocol(self, q, c.ci)}
+                    if nominal == struct and nominal:
+                        fr.env[nm] = SV(TObj(c.ci.qname, exact=False), inner.term)
 
     def s_Try(self, st, fr):
         if st.finalbody:
